@@ -97,8 +97,12 @@ Definition obtain (m : N) (ks : tuple) (st : rstore) : rval * rstore :=
             (v, set_mdata st m (mdata st m ++ [mkdatum ks v RNow 0]))
   end.
 
+(* the time register holds a time.Time; Go's zero Time (year 1) is its initial
+   value and cannot be told from "not set" *)
+Definition time_reg (s : rstate) : timeval :=
+  match rs_time s with Some t => t | None => zero_time end.
 Definition stamp (s : rstate) : rtime :=
-  match rs_time s with None => RNow | Some t => RAt (time_unix_nano t) end.
+  if time_is_zero (time_reg s) then RNow else RAt (time_unix_nano (time_reg s)).
 
 Definition write (m : N) (ks : tuple) (v : rval) (s : rstate) : rstate :=
   let t := stamp s in
@@ -180,7 +184,9 @@ Definition do_bit (op : bitop) (a b : rval) (s : rstate) : res rval :=
 
 Definition cmp_result (op : cmpop) (lt eq gt : bool) : bool :=
   match op with
-  | CLt => lt | CGt => gt | CLe => lt || eq | CGe => gt || eq | CEq => eq | CNe => negb eq
+  (* <= is "not >", >= is "not <": the same as "< or ==" on every total order
+     (Int, String, Float without NaN); the reference does not define NaN *)
+  | CLt => lt | CGt => gt | CLe => negb gt | CGe => negb lt | CEq => eq | CNe => negb eq
   end.
 
 Definition do_cmp (op : cmpop) (t : ty) (a b : rval) (s : rstate) : res rval :=
@@ -262,7 +268,7 @@ Fixpoint eval (e : expr) (s : rstate) {struct e} : res rval :=
       bind (eval val s2) (fun vv s3 => bind (as_str vv s3) (fun v s4 =>
         ROk (RStr (re_replace E pid v n)) s4))))
   | ETimestamp =>
-      ROk (RInt (match rs_time s with Some t => time_unix t | None => now_sec E end)) s
+      ROk (RInt (if time_is_zero (time_reg s) then now_sec E else time_unix (time_reg s))) s
   | EGetfilename => ROk (RStr file) s
   end
 with eval_keys (ks : exprs) (s : rstate) {struct ks} : res tuple :=
